@@ -58,11 +58,11 @@ def main():
     f = ROOT / "DESIGN.md"
     s = f.read_text()
     for name, fn in (("findings", findings), ("seeded", seeded), ("benign", benign)):
-        pat = re.compile(rf"(<!-- BEGIN:{name} -->\n).*?(\n<!-- END:{name} -->)", re.S)
+        pat = re.compile(rf"(<!-- BEGIN:{name} -->\n).*?(<!-- END:{name} -->)", re.S)
         if not pat.search(s):
             print("marker missing:", name)
             continue
-        s = pat.sub(lambda m: m.group(1) + fn() + m.group(2), s)
+        s = pat.sub(lambda m: m.group(1) + fn() + "\n" + m.group(2), s)
     f.write_text(s)
 
 
